@@ -12,24 +12,24 @@ LEVELS = {
 DEFAULT_NOTE = 'Trusted: Coq kernel; the hand-written Gallina transcription of the Rust functions involved (tied to the code by the correspondence streams only: a discrepancy the generators never hit is not detected); tools/gen_tables.py; extraction (ExtrOcamlBasic); Rust std as modelled. Print Assumptions: closed under the global context unless the evidence lists axioms.'
 
 TEXT = {
- 'C01': "theorems about the model's expression parser/evaluator: the parser inverts rendering for EVERY expression tree (C01_every_tree_reads_back: insert exactly the parentheses the precedence ladder requires, render, parse -- the tree comes back up to Group nodes and line/file metadata; all node kinds, any depth, left-nested chains for equal levels; induction over trees against the fuelled recursive-descent parser, with fuel monotonicity of its eight mutually recursive functions); grouping is transparent; the precedence ladder table; what each operator denotes for every pair of operand values (binary64 via SpecFloat, fmod, concatenation, the equality table, type errors)",
+ 'C01': "theorems about the model's expression parser/evaluator: the parser inverts rendering for EVERY expression tree (C01_every_tree_reads_back: insert exactly the parentheses the precedence ladder requires, render, parse -- the tree comes back up to Group nodes and line/file metadata; all node kinds, any depth, left-nested chains for equal levels; induction over trees against the fuelled recursive-descent parser, with fuel monotonicity of its eight mutually recursive functions); grouping is transparent; the precedence ladder table; what each operator denotes for every pair of operand values (binary64 via SpecFloat, fmod, concatenation, the equality table, type errors); the precedence ladder and the unary level of the model are proved equal to the ones regenerated from parser.rs on every run (C01_ladder_of_the_source_is_the_ladder_of_the_model)",
  'C02': 'theorems about the flat statement machine: block skipping lands after the matching close; a whole chain of any length (C02_chain_selects_first_true, C02_all_false_reaches_else, C02_all_false_without_else_continues_after_chain): conditions are evaluated in order, each from the state its predecessor left, the first true one selects exactly its block, all false reaches the else block or continues after the chain; an executed branch skips the rest of the chain; stateless chain (the machine state has no if-flag component), so any context and any history',
  'C03': 'theorems about loop bookkeeping of the model: recorded loop end; break/continue act on the innermost loop; and the frame invariant -- inside every function body AND at top level (C03_frame_invariant_at_every_top_level_boundary: at every statement boundary of every run of every accepted program, under any collection schedule): the innermost loop records exactly the scope height at its entry and the closing continue of its own block, the position is inside it, loops are properly nested, so break/continue cut the scope stack exactly to that height and land on the recorded positions',
- 'C04': 'theorems about the scope stack of the model: lookup after declare, shadowing, innermost assignment, frame of other names and scopes, undeclared is an error, nil initialisation',
- 'C05': 'theorems about call frames of the model: positional binding (missing nil, surplus unevaluated); for every expression, with calls nested to any depth, on every well-formed machine over parser-producible code: the caller\'s position, scope height, loop stack, loop base and return stack are exactly restored; the frame invariant holds at every statement of a body',
- 'C06': 'theorems about the arenas of the model: indexed write then read agree, every other cell unchanged, fresh address for concatenation results',
+ 'C04': 'theorems about the scope stack of the model: lookup after declare, shadowing, innermost assignment, frame of other names and scopes, undeclared is an error, nil initialisation; a block opens a fresh scope and its end discards it; every loop iteration starts with a fresh scope (C04_each_iteration_starts_with_a_fresh_scope: a continue, closing or mid-body, cuts the scope stack to the depth recorded at loop entry and the body\'s brace pushes an empty scope)',
+ 'C05': 'theorems about call frames of the model: positional binding (missing nil, surplus unevaluated); for every expression, with calls nested to any depth, on every well-formed machine over parser-producible code: the caller\'s position, scope height, loop stack, loop base and return stack are exactly restored; the frame invariant holds at every statement of a body; the value of a call is the operand of the executed return, evaluated in the callee, whatever nest of blocks, loops and branches the return sat in (C05_call_value_is_the_executed_return_operand), nil for a bare return',
+ 'C06': 'theorems about the arenas of the model: after x[i1]..[in] = v, ANY index path from ANY root that leads to the written container and then takes the written index reads v (the same path, or one through any alias: an alias is the same address), and any path that does not read the written cell reads what it read before -- all heaps (cyclic and shared included), all depths (C06_write_then_read_any_path; paths THROUGH the written cell are excepted and C06_path_through_the_written_cell shows the exception is necessary); the assignment statement as a whole and the index expression as the same walk; every other cell of every container unchanged; fresh address for concatenation results; push through any alias',
  'C07': 'theorems: for every program the front end accepts, every fuel and world, ANY two collection schedules (none, the native allocation-counter trigger, a collection at every boundary, any pattern) give the same output, final world and result (C07_any_collection_schedule_is_invisible: lock-step simulation of the two runs through a partial bijection of container addresses, through every expression form, built-in, statement and call depth; a collection on either side keeps the machines related); and for every heap and scope stack (any sharing, cycles, list<->record nesting): the mark phase marks exactly the reachable containers; a collection is total, keeps every reachable container unchanged, preserves reachability and well-formedness, and leaves no reachable slot on a free list, so the allocator never hands out live storage. Native stack exhaustion (OutOfFuel in the model) on either run is excluded from the schedule theorem',
  'C08': 'theorems: one collection empties every unreachable container (unreachable cycles included) and lists it exactly once on the free list; the allocator takes from the free list whenever it is non-empty and grows the arena by one slot otherwise; every allocation advances the counter; the native trigger fires exactly at the threshold read from the source; and for whole runs (C08_heap_bounded_at_every_boundary): allocation accounting through every statement and call (free lists only shrink, an arena grows only once its free list is empty, every slot is paid for by the counter), after a collection the occupied slots are at most the reachable containers, hence at every statement boundary of every accepted program both arenas are at most R + threshold + A long, where R bounds the containers reachable at boundaries and A the allocation of one top-level statement -- independent of the number of statements or loop iterations executed',
  'C09': 'theorems about the number model: digit tables are the intended bijections (regenerated from the source), printed text has the shape -?D+(.D+)? for finite values, infinities and NaN are unprintable',
  'C10': 'theorems, for every source and file name: tokenize never panics, never exhausts its computed fuel (termination), fails only with a syntax error located in that file, allocates at most length+1 tokens; spans and line numbers account for every non-blank character',
  'C11': 'theorems about the lexer model: blanks between tokens produce no token and only newlines move line numbers; comments are single tokens the parser drops; and about the machine (C11_only_reported_positions_move): two statement vectors that differ only in line/file metadata run alike -- same output, world and result, errors of the same kind at the mapped position -- for every program, fuel, world and schedule',
- 'C12': 'theorems about the parser model: no panic for any token list, file map and fuel; every successful sub-parse consumes at least one token (no zero-progress loop); the produced statement vector is well formed; every expression tree the grammar can express is accepted and parsed to that very tree (C12_every_expression_form_is_accepted)',
+ 'C12': 'theorems about the parser model: no panic for any token list, file map and fuel; every successful sub-parse consumes at least one token (no zero-progress loop); the produced statement vector is well formed; every expression tree the grammar can express is accepted and parsed to that very tree (C12_every_expression_form_is_accepted); every vector of the documented statement forms over such trees is accepted and parsed to itself (C12_documented_programs_are_accepted; import statements excepted: their reading depends on the file system)',
  'C13': 'theorems about the machine model: whatever the front end accepts runs without a panic for every fuel, collection schedule and world (machine invariant + frame invariant, induction over all steps); every error value carries the output written so far; the listed faults are errors located at the current statement; _এরর(m) reports exactly m; the error kind/line per fault position and the exit status are covered by the faults and cli streams',
  'C14': 'theorems about the renaming of imported tokens (exactly identifiers that are not built-ins are prefixed, injectively, so prefixed and unprefixed names never collide) and about behaviour (C14_qualified_module_code_behaves_like_the_original): a statement vector whose names are qualified by any alias, with any line/file metadata, runs exactly like the original -- same output, world and result, errors of the same kind at the mapped position -- for every program, fuel, world and pair of collection schedules (generalised simulation: injective renaming that fixes built-in names)',
  'C15': 'theorems about the loader model: an import of a file on the current import chain is rejected with the cyclic-dependency error before its tokens are read',
  'C16': 'theorems: each list built-in of the model computes the corresponding sequence operation on exactly the addressed list and leaves every other list unchanged; invalid positions are errors that leave the heap unchanged; and for ANY history of the five operations through any alias (C16_any_history) the slot holds the fold of the abstract sequence operations over the initial sequence, every other container, the output and the variables untouched, and the length query answers the current length',
  'C17': 'theorems: join sep (split s sep) = s for every string and non-empty separator; split by the empty string yields the characters; the seven type names are pairwise distinct',
- 'C18': 'theorems about the renderer of the model: output only grows; scalar, list and record renderings; nil and functions unprintable; a failing print writes nothing; and no statement but a print statement writes (C18_only_print_statements_write: an expression that calls no user function -- built-ins included -- and every non-print statement whose expressions call none leave the output exactly as it was)',
+ 'C18': 'theorems about the renderer of the model: output only grows; scalar, list and record renderings; nil and functions unprintable; a failing print writes nothing; and no statement but a print statement writes (C18_only_print_statements_write: an expression that calls no user function -- built-ins included -- and every non-print statement whose expressions call none leave the output exactly as it was); the brackets, separators and key decoration the model writes are proved equal to the literals regenerated from the three renderers of interpreter.rs on every run',
  'C19': 'theorems: C19_fragments_compose_from_the_start -- observe a run of P1;P2 (any fuel, any schedule) at the first statement of P2; if that position is outside every block and loop and the global scope binds none of the names P2 mentions, then running on and running P2 alone from the initial state end alike under any schedules: output of P2 alone after what had been written, same world, errors of the same kind at the shifted position (top-level frame invariant: the control stacks are neutral there and the free lists duplicate free, whatever conditionals, returns, breaks, loops and collections came before; generalised simulation from that state); plus step laws for each kind of residue',
  'C20': 'theorems about the file-map model of the file built-ins: write then read returns the text, delete then read is an error, created directories are directories',
 }
